@@ -63,6 +63,23 @@ func C16(p *load.Prog, r *report.Report) {
 	r.RequireCount("C16.api", "exported functions and methods of the root package", n, 50)
 	moduleHygiene(p, r, "C16")
 	pooledResults(p, a, r, "C16")
+	// recycled objects: "every call returns what it would return if run alone" then rests on the functional proof
+	// that a result is a function of the call's inputs only, whatever state a previous user left in the pooled object
+	// (E1 hands out pooled objects with unknown contents). That proof is C08's and C09's; it is part of this
+	// property's argument as soon as the module keeps a pool.
+	hasPool := false
+	for _, sp := range p.ModSSA {
+		for _, m := range sp.Members {
+			if g, ok := m.(*ssa.Global); ok && strings.HasSuffix(g.Type().String(), "sync.Pool") {
+				hasPool = true
+			}
+		}
+	}
+	r.Analysed["module_keeps_object_pool"] = hasPool
+	if hasPool {
+		inherit(p, r, "C16", "C08", C08, "C08.expander", "C08.poolstate", "C08.total", "C08.composition", "C08.hash_to_field")
+		inherit(p, r, "C16", "C09", C09, "C09.expander", "C09.poolstate", "C09.value", "C09.total")
+	}
 	// package-level variables of the module and who writes them
 	nglob := 0
 	for _, sp := range p.ModSSA {
